@@ -861,6 +861,11 @@ def _evaluate(inp, interp_class=None):
     except (ValueError, TypeError) as ex:
         # e.g. `a[0] <- f(x)`: the builder itself refuses the call sequence, so there is no method
         return {"status": "skip", "detail": "the builder rejects the program: %r" % (ex,), "diag": {}}
+    except Exception as ex:
+        # any other exception while carrying out the builder calls (e.g. an internal assertion) on a program
+        # the reference executor accepts: the builder does not implement the written program
+        return {"status": "fail", "clause": "builder-accepts-the-program",
+                "detail": "carrying out the builder calls raised %s: %s" % (type(ex).__name__, ex), "diag": {}}
     if has_nan(ref):
         return {"status": "skip", "detail": "outside the domain: NaN / unwritten array element read",
                 "diag": {}}
